@@ -14,6 +14,7 @@ import (
 	"fmt"
 	"io"
 	"log/slog"
+	"math"
 	"net"
 	"strings"
 	"sync"
@@ -495,6 +496,11 @@ func (c *client) receive(r io.Reader) (err error) {
 	}
 
 	size := binary.BigEndian.Uint32(sz[:])
+	if size > math.MaxInt32 {
+		// no response can be that long (where int has 32 bits the
+		// allocation below would panic)
+		return ServerError{fmt.Errorf("response length %d is out of range", size)}
+	}
 	b := make([]byte, size)
 
 	_, err = io.ReadFull(r, b)
